@@ -163,10 +163,25 @@ def header_references(ctx, vh, rng):
             docs.append("import qmluic.QtWidgets\nQMainWindow {\n  QLineEdit { id: srcS }\n  QCheckBox { id: srcB }\n  QAction { id: other; text: \"o\" }\n  QAction {\n    id: sep\n    %s\n  }\n"
                         "  QToolBar {\n    id: bar\n%s  }\n}\n" % (a.replace("; ", "\n    "), "    actions: [other, sep, other]\n" if lst else "    QAction { %s }\n" % a))
             ctx.dist("header-references-actions")
+    # names of EVERY element kind share one space (uic makes one member per widget, layout, spacer and action): ids of spacers, layouts and actions that equal another id
+    # or the name generated for an id-less object
+    for inner in ('QVBoxLayout { QLabel { id: gap; text: "x" } QSpacerItem { id: gap } }', "QVBoxLayout { QLabel { } QSpacerItem { id: label } QSpacerItem { id: spacerItem } QSpacerItem { } }",
+                  "QVBoxLayout { id: x; QHBoxLayout { id: hboxLayout } QHBoxLayout { } QHBoxLayout { } }", "QAction { id: action1 }\n  QAction { }\n  QAction { }\n  QAction { id: action }",
+                  "QVBoxLayout { QSpacerItem { id: spacerItem1 } QSpacerItem { } QSpacerItem { } }", "QVBoxLayout { id: gap; QSpacerItem { id: gap } }",
+                  "QAction { id: dup }\n  QVBoxLayout { QSpacerItem { id: dup } }", "QMenu { id: menu1 }\n  QMenu { }\n  QMenu { }", "QVBoxLayout { QSpacerItem { id: srcS } }"):
+        docs.append("import qmluic.QtWidgets\nQWidget {\n  QLineEdit { id: srcS }\n  %s\n}\n" % inner)
+        ctx.dist("names-of-every-element-kind")
     res = qml.run_docs(vh, docs, mode="generate")
     n = 0
     for d, r in zip(docs, res):
         ctx.count(("header-references", d), True)
+        if isinstance(r, dict) and r.get("ui") is not None and not any(x["kind"] == "error" for x in r.get("diags", [])):
+            names = [el.get("name") for el in qml.parse_ui(r["ui"]).iter() if el.tag in ("widget", "layout", "spacer", "action") and el.get("name")]
+            dups = sorted({x for x in names if names.count(x) > 1})
+            if dups:
+                ctx.violation("the .ui declares the name %s more than once (objects of different kinds share one name space)" % ", ".join(dups),
+                              {"qml": d, "impl_output": r["ui"], "theorem_or_correspondence": "S: object names are unique"})
+                continue
         if not isinstance(r, dict) or r.get("ui") is None or not r.get("header") or any(x["kind"] == "error" for x in r["diags"]):
             continue
         declared = set()
